@@ -11,6 +11,7 @@ import MoreExec.Model.CancelOnShutdown
 import MoreExec.Model.Shutdown
 import MoreExec.Model.MeFuture
 import MoreExec.Model.WakeProto
+import MoreExec.Model.BlockProto
 
 namespace Driver.Replay
 
@@ -74,6 +75,35 @@ def run (hdr : List String) (lines : Array String) : String :=
   runActs (fun s ws => stepLine s ws) (fun ws => some ws) describe (init c0) lines
 end Throttle
 
+namespace Block
+open MoreExec.BlockProto
+
+def parseAct : List String → Option Act
+  | ["enq"] => some .enq
+  | ["pop", k] => some (.pop (nat! k))
+  | ["cancelRm"] => some .cancelRm
+  | ["check", tv, sh, park] => some (.check (optNat tv) (sh = "1") (park = "1"))
+  | ["wake", t] => some (.wake (t = "1"))
+  | ["shutBegin"] => some .shutBegin
+  | ["shutFlip"] => some .shutFlip
+  | ["shutNotify"] => some .shutNotify
+  | _ => none
+
+def describe (s : St) : String := s!"qlen={s.qlen} parked={s.parked} notified={s.notified} shut={repr s.shut}"
+
+/-- `check tv ? park`: the value of the shutdown flag that the submitter read is not observable; any value an unlocked reader may
+see in the current shutdown phase is tried -/
+def stepLine (s : St) (ws : List String) : Option St :=
+  match ws with
+  | ["check", tv, "?", park] =>
+      match step s (.check (optNat tv) false (park = "1")) with
+      | some s' => some s'
+      | none => step s (.check (optNat tv) true (park = "1"))
+  | _ => (parseAct ws).bind (step s)
+
+def run (lines : Array String) : String := runActs stepLine (fun ws => some ws) describe init lines
+end Block
+
 namespace Retry
 open MoreExec.Retry
 
@@ -94,6 +124,7 @@ def parsePol : List String → Option (Option Pol)
 def parseLine : List String → Option Line
   | ["submit", f] => some (.act (.submit (nat! f)))
   | ["submitNow", f, e] => some (.submitNowF (nat! f) (e = "1"))
+  | ["submitApp"] => some (.act .submitApp)
   | ["discard", f] => some (.discardF (nat! f))
   | ["gauge", v] => some (.gauge (v.toInt?.getD (-999)))
   | ["ddone", d, c] => some (.act (.ddone (nat! d) (c = "1")))
@@ -109,7 +140,8 @@ def parseLine : List String → Option Line
 
 def describe (s : St) : String :=
   let js := s.jobs.map (fun j => s!"(f{j.fut} a{j.attempt} w{j.whenT} d{j.del} stop={j.stop} old={j.old})")
-  s!"now={s.now} gauge={s.qGauge} jobs={js} delDone={s.delDone} done={s.done} cancelling={s.cancelling.map (·.1)} decs={s.decs.map (·.1)} submits={s.submits}"
+  let w := s.submitting.map (fun j => s!"(f{j.fut} a{j.attempt} d{j.del})")
+  s!"now={s.now} gauge={s.qGauge} jobs={js} submitting={w} delDone={s.delDone} done={s.done} cancelling={s.cancelling.map (·.1)} decs={s.decs.map (·.1)} submits={s.submits}"
 
 /-- one line; `none` = not enabled -/
 def stepLine (s : St) : Line → Option St
@@ -126,7 +158,10 @@ def stepLine (s : St) : Line → Option St
   | .discardF f =>
       match jobOfFut s f with
       | some j => step s (.discard j)
-      | none => none
+      | none =>
+          -- the stopped job the submit thread had selected was popped by a second `cancel()` in between (which thereby made
+          -- the future terminal): `_pop_job` finds nothing and `copy_future` is tolerant of a terminal future - no effect
+          if decide (f ∈ s.done) then some s else none
   | .gauge v => if s.qGauge = v then some s else none
 
 def run (lines : Array String) : String :=
